@@ -45,7 +45,7 @@ def run(ck):
     # ---- O2
     cf = S.m["compressFile"]
     gc = S.g(cf)
-    co = [n for n in cf.calls(("QFile::open", "QIODevice::open", "QFileDevice::open"))]
+    co = [n for n in cf.calls(("QFile::open", "QIODevice::open", "QFileDevice::open", "QSaveFile::open"))]
     ck.require(len(co) == 2, "compressFile: expected two opens")
     dest = [n for n in cf.calls() if destructive_kind(n) == "remove"]
     writes = [n for n in cf.calls() if n.get("ck") == "member" and name_is(n.get("callee"), ("putChar", "write"))]
@@ -60,8 +60,18 @@ def run(ck):
     if outs and dest:
         outdecl = skip_copies(outs[0].get("obj")).get("decl")
         cls = [n for n in cf.calls(("QFileDevice::close", "QFile::close", "QIODevice::close")) if is_ref_to(n.get("obj"), outdecl)]
-        ok = bool(cls) and gc.dominated(gc.site_of(dest[0]), set(gc.sites_of_nodes(cls)))
-        ck.ob("C10-O2", sitestr(cf, dest[0]), ok, "the original is removed only after the compressed copy was closed" if ok else "the original is removed before the compressed copy is closed", key="compressFile|remove-before-close")
+        commits = [n for n in cf.calls(("QSaveFile::commit",)) if is_ref_to(n.get("obj"), outdecl)]
+        if commits and not cls:
+            # QSaveFile: the archive exists under its final name only if commit() returned true
+            okd = gc.dominated(gc.site_of(dest[0]), set(gc.sites_of_nodes(commits)))
+            live_f = gc.live(gc.projector(atom_eq(value_pred(cf, commits[0]), False)))
+            okg = gc.site_of(dest[0]) not in live_f
+            ck.ob("C10-O2", sitestr(cf, dest[0]), okd and okg, "the original is removed only after commit() of the compressed copy returned true" if (okd and okg) else
+                  "the original is removed although QSaveFile::commit() may have failed (its result is not checked): a failed publish of the .gz deletes the only copy" if okd else
+                  "the original is removed before the compressed copy is committed", key="compressFile|remove-before-close")
+        else:
+            ok = bool(cls) and gc.dominated(gc.site_of(dest[0]), set(gc.sites_of_nodes(cls)))
+            ck.ob("C10-O2", sitestr(cf, dest[0]), ok, "the original is removed only after the compressed copy was closed" if ok else "the original is removed before the compressed copy is closed", key="compressFile|remove-before-close")
     # ---- O3
     reach = S.entry_reach()
     n_sites = 0
